@@ -165,6 +165,28 @@ def check_case(case):
                                                          'the P2PKH address of HASH160(pubkey[:-1]) = %r instead of HASH160(pubkey)' % str(a))
                     else:
                         raise Violation('variant/%s' % kind, 'P2PKH variant %s maps to %s %r' % (kind, type(a).__name__, str(a)))
+                # the converter of the P2PKH class itself: the script held as plain bytes / bytearray ("in case it's not a CScript
+                # instance yet") gives the same address; its two documented switches refuse exactly what they name
+                for knd, sv in libx.spellings(script, with_script=True):
+                    if knd == 'memoryview':
+                        continue
+                    a2 = libx.call('P2PKH.from_scriptPubKey-script-as-' + knd, P2PKHBitcoinAddress.from_scriptPubKey, sv)[1]
+                    if type(a2) is not P2PKHBitcoinAddress or str(a2) != str(a):
+                        raise Violation('variant/script-as-' + knd, 'P2PKHBitcoinAddress.from_scriptPubKey(<%s>) gives %r, CBitcoinAddress.from_scriptPubKey %r' % (knd, str(a2), str(a)))
+                bare = kind.startswith('pubkey')
+                canonical = (step.get('push', 'min') == 'min') if bare else False
+                r1 = libx.call('P2PKH.from_scriptPubKey-strict-push', P2PKHBitcoinAddress.from_scriptPubKey, CScript(script),
+                               accept_non_canonical_pushdata=False, allowed=(CBitcoinAddressError,))
+                if canonical and (r1[0] != 'ok' or str(r1[1]) != str(a)):
+                    raise Violation('variant/strict-push-refuses-canonical', 'accept_non_canonical_pushdata=False refuses the canonical %s script' % kind)
+                if not canonical and r1[0] == 'ok':
+                    raise Violation('variant/strict-push-accepts', 'accept_non_canonical_pushdata=False accepts a %s script with a non-minimal push' % kind)
+                r2 = libx.call('P2PKH.from_scriptPubKey-no-bare', P2PKHBitcoinAddress.from_scriptPubKey, CScript(script),
+                               accept_bare_checksig=False, allowed=(CBitcoinAddressError,))
+                if bare and r2[0] == 'ok':
+                    raise Violation('variant/no-bare-accepts', 'accept_bare_checksig=False accepts a bare-pubkey script')
+                if not bare and (r2[0] != 'ok' or str(r2[1]) != str(a)):
+                    raise Violation('variant/no-bare-refuses-p2pkh', 'accept_bare_checksig=False refuses a P2PKH script with a non-minimal push')
                 cls.append('variant:' + kind)
             elif act == 'badselect':
                 # a selection that is refused (unknown name) changes nothing; one that is honoured (an alias a later version may
